@@ -69,8 +69,9 @@ Definition s_of_string (nb : nat) (str : list N) (pos : nat) (n : N) (zero one :
     else SInvalid.
 
 (** * Histories on the spec side: the same two-register machine over std::bitset values.
-    None = std::bitset throws out_of_range (set/reset/flip/test, string constructor) or has
-    undefined behaviour (operator[] with pos >= N): the documented domain ends there. *)
+    None = std::bitset throws out_of_range (set/reset/flip/test, string constructor) or
+    invalid_argument (string constructor) or has undefined behaviour (operator[] with pos >= N):
+    the documented domain ends there. *)
 From Tetl Require Import C17.Ops.
 
 Definition sstate : Type := bset * bset.
@@ -99,13 +100,6 @@ Definition s_step (nb : nat) (st : sstate) (o : op) : option (sstate * list bool
   | OTest pos =>
       match s_test cur pos with Some b => Some ((cur, oth), [b; b; b; negb b]) | None => None end
   end.
-
-(* the string constructor's argument is inside the standard's no-invalid_argument domain *)
-Definition str_valid (str : list N) (pos : nat) (n : N) (zero one : N) : bool :=
-  forallb (fun c => N.eqb c zero || N.eqb c one) (firstn (s_rlen str pos n) (skipn pos str)).
-
-Definition op_dom (o : op) : bool :=
-  match o with OStr str pos n zero one => str_valid str pos n zero one | _ => true end.
 
 Definition s_observe (nb : nat) (st : sstate) : obs :=
   let '(cur, oth) := st in
